@@ -2911,6 +2911,29 @@ v("C05", "fence-skipped-on-the-interceptor-path", "httpgrpc/server.go",
   "		str.wmu.Lock()\n		str.finished = true\n		str.wmu.Unlock()\n", "		if streamInt == nil {\n			str.wmu.Lock()\n			str.finished = true\n			str.wmu.Unlock()\n		}\n", "R14", "finished-fence",
   "with an interceptor installed the stream is never marked finished")
 
+# ------------------------------------------------------------------ waves 9 and 10
+v("C09", "timeout-parsed-unsigned", "httpgrpc/server.go",
+  "		if timeoutVal, err := strconv.ParseInt(timeout[:len(timeout)-1], 10, 64); err == nil {\n", "		if u, err := strconv.ParseUint(timeout[:len(timeout)-1], 10, 64); err == nil {\n			timeoutVal := int64(u)\n", "R4", "parsed-as-signed-64",
+  "values from 2^63 on wrap to negative and pass the signed upper-bound test")
+v("C05", "request-drain-bounded", "httpgrpc/server.go",
+  "	_, copyErr := io.Copy(ioutil.Discard, r)\n", "	_, copyErr := io.CopyN(ioutil.Discard, r, 256<<10)\n	if copyErr == io.EOF {\n		copyErr = nil\n	}\n", "R6", "drains-to-the-end",
+  "a client that is still sending loses its connection and blocks in the pipe write")
+v("C04", "stream-handler-enables-full-duplex", "httpgrpc/server.go",
+  "		str := &serverStream{r: r, w: w, respStream: desc.ClientStreams, codec: codec}\n", "		_ = http.NewResponseController(w).EnableFullDuplex()\n		str := &serverStream{r: r, w: w, respStream: desc.ClientStreams, codec: codec}\n", "R12", "connection-handling-left-to-net/http",
+  "net/http no longer consumes the request body on the first reply write, nor watches the connection")
+v("C16", "unary-dispatch-skipped-for-a-done-context", "httpgrpc/server.go",
+  "		resp, err := desc.Handler(svr, grpc.NewContextWithServerTransportStream(ctx, &sts), dec, unaryInt)\n", "		var resp interface{}\n		err = ctx.Err()\n		if err == nil {\n			resp, err = desc.Handler(svr, grpc.NewContextWithServerTransportStream(ctx, &sts), dec, unaryInt)\n		}\n", "R9", "accepted-means-dispatched",
+  "interceptors never see an RPC whose context was done on arrival")
+v("C19", "generator-refuses-files-itself", "cmd/protoc-gen-grpchan/protoc-gen-grpchan.go",
+  "	if len(fd.GetServices()) == 0 {\n		return nil\n	}\n", "	if len(fd.GetServices()) == 0 {\n		return nil\n	}\n	if len(fd.GetServices()) > 1 && fd.GetServices()[0].GetName()+\"Client\" == fd.GetServices()[1].GetName() {\n		return fmt.Errorf(\"%s: service names collide\", fd.GetName())\n	}\n", "R8", "refuses-no-file",
+  "a valid file is refused by a name check of the plugin's own")
+v("C18", "copy-gated-by-a-module-check", "internal/misc.go",
+  "	pmOut.Reset()\n	// This will check that types are compatible", "	if err := ClearMessage(pmIn); err != nil {\n		return err\n	}\n	pmOut.Reset()\n	// This will check that types are compatible", "R1", "refuses-only-what-the-merge-refuses",
+  "(also destroys the source) a module function handed the message decides the refusal")
+v("C12", "stream-client-own-verdict-before-status", "httpgrpc/client.go",
+  "	stat := statFromResponse(reply)\n", "	if reply.Header.Get(\"Content-Type\") != StreamRpcContentType_V1 {\n		cs.tr.Code = int32(codes.Unavailable)\n		return\n	}\n	stat := statFromResponse(reply)\n", "R9", "no-own-verdict-before-the-status-header",
+  "the mux's 404 for an unknown method becomes Unavailable")
+
 
 def main():
     if os.path.isdir(OUT):
